@@ -24,6 +24,7 @@ func main() {
 		vlib.Group{Name: "dual-compose", Gen: genDualCompose},
 		vlib.Group{Name: "hyperdual-compose", Gen: genHyperdualCompose},
 		vlib.Group{Name: "quat-func", Gen: genQuatFuncs},
+		vlib.Group{Name: "quat-ladder", Gen: genQuatLadder},
 		vlib.Group{Name: "dualquat-func", Gen: genDualquatFuncs},
 		vlib.Group{Name: "dualcmplx-func", Gen: genDualcmplxFuncs},
 		vlib.Group{Name: "interp", Gen: genInterp},
